@@ -61,6 +61,7 @@ type addrMode struct {
 type addrLayout struct {
 	Top, Sub, GitDir, GitFileDir, Worktree, Bare, Outside string
 	EnvGraftFile                                          string    // set when the caller's environment names a graft file
+	Decoy                                                 string    // another repository (objects, references, refgroups of its own)
 	MainHead, WorktreeHead                                model.Oid // what HEAD denotes in the main and in the linked work tree
 	LinkDeep, LinkDeepReal, LinkTop, LinkGitDir           string    // symbolic links: to a directory three levels down, to the top, to the git directory
 }
@@ -95,6 +96,10 @@ var addrModes = []addrMode{
 	{Name: "GIT_DIR+GIT_WORK_TREE", Dir: func(l *addrLayout) string { return l.Outside },
 		Env: func(l *addrLayout) []string { return []string{"GIT_DIR=" + l.GitDir, "GIT_WORK_TREE=" + l.Top} }, GitDir: func(l *addrLayout) string { return l.GitDir }},
 	{Name: "gitfile-relative", Dir: func(l *addrLayout) string { return filepath.Join(l.GitFileDir, "relative") }, GitDir: func(l *addrLayout) string { return l.GitDir }},
+	// started inside ANOTHER repository (its own objects, references and refgroup configuration) with GIT_DIR naming the
+	// one to measure: nothing of the surrounding repository may show
+	{Name: "GIT_DIR-from-inside-another-repository", Dir: func(l *addrLayout) string { return l.Decoy },
+		Env: func(l *addrLayout) []string { return []string{"GIT_DIR=" + l.GitDir} }, GitDir: func(l *addrLayout) string { return l.GitDir }},
 	{Name: "GIT_DIR-dot-from-gitdir", Dir: func(l *addrLayout) string { return l.GitDir },
 		Env: func(l *addrLayout) []string { return []string{"GIT_DIR=."} }, GitDir: func(l *addrLayout) string { return l.GitDir }},
 }
@@ -228,6 +233,15 @@ func buildLayout(base string, ac *addrCase) (*addrLayout, *gitrepo.Repo, error) 
 	os.MkdirAll(filepath.Join(l.GitFileDir, "relative"), 0o755)
 	if rel, err := filepath.Rel(filepath.Join(l.GitFileDir, "relative"), l.GitDir); err == nil {
 		os.WriteFile(filepath.Join(l.GitFileDir, "relative", ".git"), []byte("gitdir: "+rel+"\n"), 0o644)
+	}
+	l.Decoy = filepath.Join(base, "decoy")
+	for _, args := range [][]string{{"init", "-q", l.Decoy}, {"-C", l.Decoy, "commit", "-q", "--allow-empty", "-m", "decoy"},
+		{"-C", l.Decoy, "config", "refgroup.decoy.include", "refs/heads"}, {"-C", l.Decoy, "config", "sizer.names", "none"}} {
+		cmd := exec.Command("/usr/bin/git", args...)
+		cmd.Env = append(gitrepo.GitEnv(base), "GIT_AUTHOR_NAME=d", "GIT_AUTHOR_EMAIL=d@e.x", "GIT_COMMITTER_NAME=d", "GIT_COMMITTER_EMAIL=d@e.x")
+		if out, err := cmd.CombinedOutput(); err != nil {
+			return nil, nil, fmt.Errorf("decoy repository: %v: %s", err, out)
+		}
 	}
 	l.LinkDeepReal = filepath.Join(base, "real", "a", "b")
 	os.MkdirAll(l.LinkDeepReal, 0o755)
@@ -384,7 +398,7 @@ func logProblems(ar *addrRun, l *addrLayout, m addrMode) []string {
 
 func checkC13(c *Ctx) {
 	c.Ev.Level = "exploration"
-	c.Ev.Rule = "every generated repository flavour (plain; refs/replace of a commit by a bigger/smaller one, of a tree, of a blob; info/grafts adding, dropping, redirecting parents; a graft file named by the caller's GIT_GRAFT_FILE; shallow marker, also a stale empty one) x 17 ways of addressing it (top, subdirectory, inside .git, gitfile with an absolute and a relative path, GIT_DIR absolute / relative / '.' / naming a symbolic link / with GIT_WORK_TREE, git -C dir sizer, linked worktree and its subdirectory, bare copy, start directory entered through a symbolic link with GIT_DIR=../.., symbolic link to the top and a subdirectory below it; PWD is the logical path as a shell sets it): stdout must be byte-identical across addressing modes and equal the ObjGraph oracle on the objects as stored (ScanJudge; replace refs are ordinary references); the fake git's log must show --no-replace-objects, GIT_GRAFT_FILE=/dev/null and the real GIT_DIR on every invocation; the single ROOT HEAD is measured per work tree (the linked one is detached at another commit) and judged by the oracle; shallow => refused; distinct = distinct (graph, flavour, mode)"
+	c.Ev.Rule = "every generated repository flavour (plain; refs/replace of a commit by a bigger/smaller one, of a tree, of a blob; info/grafts adding, dropping, redirecting parents; a graft file named by the caller's GIT_GRAFT_FILE; shallow marker, also a stale empty one) x 18 ways of addressing it (top, subdirectory, inside .git, gitfile with an absolute and a relative path, GIT_DIR absolute / relative / '.' / naming a symbolic link / with GIT_WORK_TREE, git -C dir sizer, linked worktree and its subdirectory, bare copy, start directory entered through a symbolic link with GIT_DIR=../.., symbolic link to the top and a subdirectory below it; PWD is the logical path as a shell sets it): stdout must be byte-identical across addressing modes and equal the ObjGraph oracle on the objects as stored (ScanJudge; replace refs are ordinary references); the fake git's log must show --no-replace-objects, GIT_GRAFT_FILE=/dev/null and the real GIT_DIR on every invocation; the single ROOT HEAD is measured per work tree (the linked one is detached at another commit) and judged by the oracle; shallow => refused; distinct = distinct (graph, flavour, mode)"
 	env := newScanEnv(c, true, false)
 	e := &c10Env{c: c, env: env, fake: buildFakeGit(c)}
 	rng := rand.New(rand.NewSource(c.Seed))
